@@ -2130,3 +2130,229 @@ ok("C12", "square closed form with reordered terms", _sub(
     "            integral = self.eta_function(time_1 - delta, **kwargs) \\\n                       + self.eta_function(delta + time_1, **kwargs) \\\n                       - self.eta_function(time_1, **kwargs) * 2"))
 ok("C12", "T=0 eta kernel without inner parentheses", _sub(
     BC, "                    (np.exp(-1j * w * tau) - 1) + 1j * w * tau)", "                    np.exp(-1j * tau * w) + 1j * tau * w - 1)"))
+
+# ---------------------------------------- round 6: storage layout (C16 X12 / C03 M11), closing vectors (C06 R5)
+_FLAT_OLD = "    tensor = tensor.reshape(-1)\n    data[step] = tensor\n"
+for _pid, _rule in (("C16", "X12"), ("C03", "M11")):
+    brk(_pid, "file-backed tensors flattened in Fortran order", _rule, _sub(
+        PT, _FLAT_OLD, "    data[step] = tensor.flatten(order='F')\n"))
+    brk(_pid, "file-backed tensors flattened in memory order (ravel 'A')", _rule, _sub(
+        PT, _FLAT_OLD, "    data[step] = tensor.ravel('A')\n"))
+    ok(_pid, "file-backed tensors flattened with ravel() (logical order)", _sub(
+        PT, _FLAT_OLD, "    data[step] = tensor.ravel()\n"))
+    ok(_pid, "file-backed tensors flattened with an explicit order='C'", _sub(
+        PT, _FLAT_OLD, "    data[step] = np.ravel(tensor, order='C')\n"))
+_SUMS_OLD = """            sum_north = np.ones(np.max(self._bath.north_degeneracy_map)+1,
+                                dtype=float)
+            sum_west = np.ones(np.max(self._bath.west_degeneracy_map)+1,
+                               dtype=float)
+"""
+brk("C06", "PtTempo closes the north leg with the class sizes", "R5", _sub(
+    PTT, _SUMS_OLD, """            sum_north = np.bincount(self._bath.north_degeneracy_map).astype(float)
+            sum_west = np.ones(np.max(self._bath.west_degeneracy_map)+1,
+                               dtype=float)
+"""))
+brk("C06", "PtTempo closes the west leg with np.full(.., 2.0)", "R5", _sub(
+    PTT, _SUMS_OLD, """            sum_north = np.ones(np.max(self._bath.north_degeneracy_map)+1,
+                                dtype=float)
+            sum_west = np.full(np.max(self._bath.west_degeneracy_map)+1, 2.0)
+"""))
+ok("C06", "PtTempo builds both closing vectors of ones in a comprehension over the maps", _sub(
+    PTT, _SUMS_OLD, """            sum_north, sum_west = [np.ones(np.max(deg_map)+1, dtype=float)
+                                   for deg_map in (self._bath.north_degeneracy_map,
+                                                   self._bath.west_degeneracy_map)]
+"""))
+ok("C06", "PtTempo builds the closing vectors with ones_like over the class labels", _sub(
+    PTT, _SUMS_OLD, """            sum_north = np.ones_like(np.arange(np.max(self._bath.north_degeneracy_map)+1),
+                                     dtype=float)
+            sum_west = np.ones(np.max(self._bath.west_degeneracy_map)+1,
+                               dtype=float).astype(float)
+"""))
+
+# ---------------------------------------- None is a setting of its own (C02 S9 / C09 F7)
+_SD_PARSE = "    num_envs = len(process_tensors)\n\n    # -- prepare propagators --\n"
+for _pid, _rule in (("C02", "S9"), ("C09", "F7")):
+    brk(_pid, "compute_dynamics turns subdiv_limit=None into the default", _rule, _sub(
+        SD, _SD_PARSE, "    num_envs = len(process_tensors)\n    if subdiv_limit is None:\n"
+        "        subdiv_limit = SUBDIV_LIMIT\n\n    # -- prepare propagators --\n"))
+    brk(_pid, "TempoParameters stores the default when subdiv_limit is None", _rule, _sub(
+        TE, "            if subdiv_limit is None:\n                tmp_subdiv_limit = None\n",
+        "            if subdiv_limit is None:\n                tmp_subdiv_limit = SUBDIV_LIMIT\n"))
+    ok(_pid, "compute_dynamics converts a given subdiv_limit to int and keeps None", _sub(
+        SD, _SD_PARSE, "    num_envs = len(process_tensors)\n    if subdiv_limit is not None:\n"
+        "        subdiv_limit = int(subdiv_limit)\n\n    # -- prepare propagators --\n"))
+    ok(_pid, "TempoParameters parses subdiv_limit with a conditional expression", _sub(
+        TE, "            if subdiv_limit is None:\n                tmp_subdiv_limit = None\n"
+        "            else:\n                tmp_subdiv_limit = int(subdiv_limit)\n",
+        "            tmp_subdiv_limit = None if subdiv_limit is None else int(subdiv_limit)\n"))
+
+# ---------------------------------------- single-site gate convention (C04 D9 / C10 I11)
+_SG_OLD = "        matrix = tn.Node(gate.tensors[0])\n        matrix[1] ^ self._phys_es[site]\n        self._phys_es[site] = matrix[0]\n"
+for _pid, _rule in (("C04", "D9"), ("C10", "I11")):
+    brk(_pid, "apply_site_gate contracts the output axis of the control", _rule, _sub(
+        TEBDB, _SG_OLD, "        matrix = tn.Node(gate.tensors[0])\n        matrix[0] ^ self._phys_es[site]\n        self._phys_es[site] = matrix[1]\n"))
+    brk(_pid, "apply_site_gate builds the node from the transposed control but keeps the axes", _rule, _sub(
+        TEBDB, _SG_OLD, "        matrix = tn.Node(gate.tensors[0].T)\n        matrix[1] ^ self._phys_es[site]\n        self._phys_es[site] = matrix[0]\n"))
+    brk(_pid, "PtTebd hands the controls over transposed", _rule, _sub(
+        TEBD, "                control_gates.append(SiteGate(site, control))", "                control_gates.append(SiteGate(site, control.T))"))
+    ok(_pid, "apply_site_gate builds the node from the transposed control and swaps the axes", _sub(
+        TEBDB, _SG_OLD, "        matrix = tn.Node(gate.tensors[0].T)\n        matrix[0] ^ self._phys_es[site]\n        self._phys_es[site] = matrix[1]\n"))
+    ok(_pid, "apply_site_gate names the two legs of the control first", _sub(
+        TEBDB, _SG_OLD, "        matrix = tn.Node(gate.tensors[0])\n        out_edge, in_edge = matrix[0], matrix[1]\n        in_edge ^ self._phys_es[site]\n        self._phys_es[site] = out_edge\n"))
+
+# ---------------------------------------- getters do not write the stores of the setters (C02 S10 / C16 X13 / C03 M12)
+_GET_TAIL = "        if self._transform_out is not None:\n            tensor = np.dot(tensor, self._transform_out)\n        return tensor\n\n    def get_cap_tensor(self, step: int) -> ndarray:"
+for _pid, _rule in (("C02", "S10"), ("C16", "X13"), ("C03", "M12")):
+    brk(_pid, "SimpleProcessTensor.get_mpo_tensor writes the returned tensor back into the store", _rule, _sub(
+        PT, _GET_TAIL, "        if self._transform_out is not None:\n            tensor = np.dot(tensor, self._transform_out)\n        self._mpo_tensors[step] = tensor\n        return tensor\n\n    def get_cap_tensor(self, step: int) -> ndarray:"))
+    ok(_pid, "SimpleProcessTensor.get_mpo_tensor counts its reads in an attribute of its own", _sub(
+        PT, _GET_TAIL, "        if self._transform_out is not None:\n            tensor = np.dot(tensor, self._transform_out)\n        self._reads = getattr(self, '_reads', 0) + 1\n        return tensor\n\n    def get_cap_tensor(self, step: int) -> ndarray:"))
+
+# ---------------------------------------- stored (diagonalised) coupling operator (C05 E7 / C07 V11)
+_CO_OLD = "            coup_op = self.bath.unitary_transform \\\n                @ self.bath.coupling_operator \\\n                @ self.bath.unitary_transform.conjugate().T\n"
+for _pid, _rule in (("C05", "E7"), ("C07", "V11")):
+    brk(_pid, "bath dynamics uses the stored coupling operator without rotating it back", _rule, _sub(
+        BD, _CO_OLD, "            coup_op = self.bath.coupling_operator\n"))
+    brk(_pid, "bath dynamics rotates the coupling operator with U^T instead of U^dagger", _rule, _sub(
+        BD, _CO_OLD, "            coup_op = self.bath.unitary_transform \\\n                @ self.bath.coupling_operator \\\n                @ self.bath.unitary_transform.T\n"))
+    ok(_pid, "bath dynamics rotates the coupling operator back through two locals", _sub(
+        BD, _CO_OLD, "            unitary = self.bath.unitary_transform\n            diagonal = self.bath.coupling_operator\n"
+        "            coup_op = unitary @ diagonal @ unitary.conj().T\n"))
+
+# ---------------------------------------- one gate per bond (C10 I12)
+_TL_OLD = "        all_gates.append(gate)\n\n    gates_even = all_gates[0::2]"
+brk("C10", "compute_trotter_layers reuses the first gate for every bond", "I12", _sub(
+    MM, _TL_OLD, "        all_gates.append(gate if not all_gates else all_gates[0])\n\n    gates_even = all_gates[0::2]"))
+brk("C10", "compute_trotter_layers builds every gate for site 0", "I12", _sub(
+    MM, "                               site=i,\n                               hs_dim_l=hs_dims[i],", "                               site=0,\n                               hs_dim_l=hs_dims[i],"))
+ok("C10", "compute_trotter_layers appends the gate without a local", _sub(
+    MM, """        gate = compute_nn_gate(liouvillian = liouv,
+                               site=i,
+                               hs_dim_l=hs_dims[i],
+                               hs_dim_r=hs_dims[i+1],
+                               dt=dt,
+                               epsrel=epsrel)
+        all_gates.append(gate)
+""", """        all_gates.append(compute_nn_gate(liouvillian=liouv, site=i, hs_dim_l=hs_dims[i],
+                                         hs_dim_r=hs_dims[i+1], dt=dt, epsrel=epsrel))
+"""))
+ok("C10", "compute_trotter_layers collects the gates in a comprehension", _sub(
+    MM, """    all_gates = []
+    for i, liouv in enumerate(nn_full_liouvillians):
+        gate = compute_nn_gate(liouvillian = liouv,
+                               site=i,
+                               hs_dim_l=hs_dims[i],
+                               hs_dim_r=hs_dims[i+1],
+                               dt=dt,
+                               epsrel=epsrel)
+        all_gates.append(gate)
+""", """    all_gates = [compute_nn_gate(liouvillian=liouv, site=i, hs_dim_l=hs_dims[i],
+                                 hs_dim_r=hs_dims[i+1], dt=dt, epsrel=epsrel)
+                 for i, liouv in enumerate(nn_full_liouvillians)]
+"""))
+
+# ---------------------------------------- new closures are written out (C08 H2 through a closure)
+_BP_OLD = """            first_half_prop, second_half_prop = propagators(step)
+            pt_mpos = _get_pt_mpos_backprop(mpo_list, step)
+
+            current_node, current_edges = _apply_system_superoperator(
+                current_node, current_edges, second_half_prop.T)
+
+            current_node, current_edges = _apply_pt_mpos(
+                current_node, current_edges, pt_mpos, reverse=True)
+
+            current_node, current_edges = _apply_system_superoperator(
+                current_node, current_edges, first_half_prop.T)
+"""
+_BP_CLOSURE = """    def adjoint_propagators(step: int):
+        first_half_prop, second_half_prop = propagators(step)
+        return %s
+
+    # -- prepare controls --
+    def controls(step: int):"""
+_BP_NEW = """            first_half_prop, second_half_prop = adjoint_propagators(step)
+            pt_mpos = _get_pt_mpos_backprop(mpo_list, step)
+
+            current_node, current_edges = _apply_system_superoperator(
+                current_node, current_edges, second_half_prop)
+
+            current_node, current_edges = _apply_pt_mpos(
+                current_node, current_edges, pt_mpos, reverse=True)
+
+            current_node, current_edges = _apply_system_superoperator(
+                current_node, current_edges, first_half_prop)
+"""
+brk("C08", "backward pass takes the transposed propagators from a closure that returns them exchanged", "H2", _multi(
+    _sub(GR, "    # -- prepare controls --\n    def controls(step: int):", _BP_CLOSURE % "second_half_prop.T, first_half_prop.T"),
+    _sub(GR, _BP_OLD, _BP_NEW)))
+ok("C08", "backward pass takes the transposed propagators from a closure (same order)", _multi(
+    _sub(GR, "    # -- prepare controls --\n    def controls(step: int):", _BP_CLOSURE % "first_half_prop.T, second_half_prop.T"),
+    _sub(GR, _BP_OLD, _BP_NEW)))
+
+# ---------------------------------------- rules shared with other properties (C01 N7, C05 E8)
+brk("C01", "TEMPO back end builds the rotation with the column-stacking formula kron(U*, U)", "N7", _multi(
+    _sub(TB, """        self._super_u = op.left_right_super(
+            self._unitary_transform,
+            self._unitary_transform.conjugate().T)
+        self._super_u_dagg = op.left_right_super(
+            self._unitary_transform.conjugate().T,
+            self._unitary_transform)
+""", """        unitary = self._unitary_transform
+        self._super_u = np.kron(unitary.conjugate(), unitary)
+        self._super_u_dagg = self._super_u.conjugate().T
+""")))
+brk("C05", "file process tensor is re-opened with transform_in under both names", "E8", _sub(
+    PT, '        transform_out = np.array(self._f["transform_out"])', '        transform_out = np.array(self._f["transform_in"])'))
+
+# ---------------------------------------- restart resets the records (C13 G9 / C14 T9), creating open (C17 W4)
+_INIT_OLD = """        self._results = {}
+        self._t_mps = PtTebdBackend(
+                gammas=self._initial_augmented_mps.gammas,
+                lambdas=self._initial_augmented_mps.lambdas,
+                epsrel=self._parameters.epsrel,
+                config=self._backend_config)
+        self._init_results()
+"""
+_INIT_BACKEND = """        self._t_mps = PtTebdBackend(
+                gammas=self._initial_augmented_mps.gammas,
+                lambdas=self._initial_augmented_mps.lambdas,
+                epsrel=self._parameters.epsrel,
+                config=self._backend_config)
+"""
+for _pid, _rule in (("C13", "G9"), ("C14", "T9")):
+    brk(_pid, "PtTebd creates its results in the constructor only; initialize() keeps them", _rule, _multi(
+        _sub(TEBD, "        self._results = None\n        self._step = None\n", "        self._step = None\n        self._init_results()\n"),
+        _sub(TEBD, _INIT_OLD, _INIT_BACKEND)))
+    ok(_pid, "PtTebd.initialize() re-creates the results through _init_results() alone", _sub(
+        TEBD, _INIT_OLD, _INIT_BACKEND + "        self._init_results()\n"))
+brk("C17", "_create_file checks for the file itself and always opens with 'w'", "W4", _sub(
+    PT, """        if self._overwrite:
+            self._f = h5py.File(filename, "w")
+        else:
+            self._f = h5py.File(filename, "x")
+""", """        if not self._overwrite and os.path.exists(filename):
+            raise FileExistsError(f"The file '{filename}' already exists.")
+        self._f = h5py.File(filename, "w")
+"""))
+ok("C17", "_create_file picks the open mode in a conditional expression first", _sub(
+    PT, """        if self._overwrite:
+            self._f = h5py.File(filename, "w")
+        else:
+            self._f = h5py.File(filename, "x")
+""", """        if self._overwrite:
+            self._f = h5py.File(filename, mode="w")
+        else:
+            self._f = h5py.File(filename, mode="x")
+"""))
+
+# ---------------------------------------- imaginary-time path keeps its whole memory (C11 K11)
+_GB_OLD = "                max_step=max_step,\n                config=self._backend_config)"
+brk("C11", "GibbsTempo bounds the MPS length by MAX_DKMAX", "K11", _multi(
+    _sub(TE, "        max_step = self._parameters.n_steps\n", "        max_step = self._parameters.n_steps\n        max_mps_length = min(max_step, 256)\n"),
+    _sub(TE, _GB_OLD, "                max_step=max_step,\n                max_mps_length=max_mps_length,\n                config=self._backend_config)")))
+brk("C11", "GibbsTempo passes a fixed memory length of 64 sites", "K11", _sub(
+    TE, _GB_OLD, "                max_step=max_step,\n                max_mps_length=64,\n                config=self._backend_config)"))
+ok("C11", "GibbsTempo passes the number of steps as memory length explicitly", _sub(
+    TE, _GB_OLD, "                max_step=max_step,\n                max_mps_length=max_step,\n                config=self._backend_config)"))
+ok("C11", "GibbsTempo passes max_mps_length=None explicitly", _sub(
+    TE, _GB_OLD, "                max_step=max_step,\n                max_mps_length=None,\n                config=self._backend_config)"))
